@@ -30,6 +30,12 @@ Proof.
   - intros [ts [Hs Hk]]. destruct (shape_derivable ts Hk) as [t Hd]. exists t. apply C05. exists ts. split; assumption.
 Qed.
 
+(* the same at the level of token lists, for the parser of parse.go alone: it accepts exactly the lists that pass *)
+Theorem C05_parser_accepts_iff_shape ts : (exists t, p_tokens ts = Ok t) <-> shape_ok ts = true.
+Proof.
+  rewrite <- derivable_iff_shape. split; intros [t H]; exists t; apply parse_sound_complete; assumption.
+Qed.
+
 (* the named classes: each makes the shape test fail, hence the string invalid, wherever it occurs *)
 Theorem C05_rejected_bad_pair s u a b v : ref_tokens T0 s = Ok (u ++ a :: b :: v) -> adj_ok a b = false -> validb T0 s = false.
 Proof.
@@ -104,5 +110,5 @@ Example C05_examples :
 Proof. vm_compute. split; reflexivity. Qed.
 
 (* axioms the property theorems of this file depend on (one traversal for all of them) *)
-Definition C05_theorems := (@C05_scanner_general, @C05, @C05_accepted_iff_shape, @C05_rejected_bad_pair, @C05_rejected_bad_first, @C05_rejected_bad_last, @C05_rejected_unbalanced, @C05_named_classes, @C05_unknown_ids_rejected).
+Definition C05_theorems := (@C05_scanner_general, @C05, @C05_accepted_iff_shape, @C05_parser_accepts_iff_shape, @C05_rejected_bad_pair, @C05_rejected_bad_first, @C05_rejected_bad_last, @C05_rejected_unbalanced, @C05_named_classes, @C05_unknown_ids_rejected).
 Redirect "assumptions/C05" Print Assumptions C05_theorems.
